@@ -17,7 +17,13 @@ import zlib
 VERIF = os.path.dirname(os.path.dirname(os.path.dirname(os.path.abspath(__file__))))
 SPEC = os.path.join(VERIF, "spec")
 HARNESS = os.path.join(VERIF, "harness")
-BIN = os.path.join(HARNESS, "target", "debug", "csl-conform")
+# Machinery testing only (bin/regress_mutants): VERIF_ALT_REPO names a scratch copy of the repository (with a seeded change applied) and
+# VERIF_ALT_TAG a name; the harness is then built against that copy into its own target directory, work files go to work/alt_<tag>/
+# and NO evidence is written. The registered commands never set these: they build against /repo's working tree.
+ALT_REPO = os.environ.get("VERIF_ALT_REPO")
+ALT_TAG = os.environ.get("VERIF_ALT_TAG", "alt")
+TARGET = os.path.join(HARNESS, "target_alt_" + ALT_TAG) if ALT_REPO else os.path.join(HARNESS, "target")
+BIN = os.path.join(TARGET, "debug", "csl-conform")
 JAR = "/opt/veriftools/tla/tla2tools.jar"
 CMJAR = "/opt/veriftools/tla/CommunityModules-deps.jar"
 TLA_LIB = os.pathsep.join(os.path.join(SPEC, d) for d in ("lib", "sys", "mc", "trace"))
@@ -40,7 +46,10 @@ def build_harness():
         shutil.copy(lock_src, lock_dst)
     env = dict(os.environ, CARGO_NET_OFFLINE="true")
     t0 = time.time()
-    p = subprocess.run(["cargo", "build", "--quiet"], cwd=HARNESS, env=env,
+    cmd = ["cargo", "build", "--quiet"]
+    if ALT_REPO:
+        cmd += ["--config", 'paths=["%s/rust"]' % ALT_REPO, "--target-dir", TARGET]
+    p = subprocess.run(cmd, cwd=HARNESS, env=env,
                        stdout=subprocess.PIPE, stderr=subprocess.STDOUT, text=True)
     if p.returncode != 0:
         log(p.stdout[-4000:])
@@ -320,7 +329,7 @@ class Verdict:
     def finish(self):
         """Print KNOWN-FINDING / VIOLATION lines. Returns (exit_code, n_violations, known_hit)."""
         viol, known_hit = 0, []
-        os.makedirs(os.path.join(VERIF, "replays"), exist_ok=True)
+        os.makedirs(os.path.join(VERIF, "replays", *(["alt_" + ALT_TAG] if ALT_REPO else [])), exist_ok=True)
         for sig, items in sorted(self.fails.items()):
             k = next((k for k in self.known if k["signature"] == sig), None)
             if k:
@@ -328,7 +337,7 @@ class Verdict:
                 log("KNOWN-FINDING: property=%s %s (%s; %d occurrence(s))" % (self.pid, sig, k.get("what", "")[:110], len(items)))
                 continue
             viol += 1
-            rp = os.path.join(VERIF, "replays", "%s_%s.json" % (self.pid, re.sub(r"[^A-Za-z0-9_.-]+", "_", sig)[:80]))
+            rp = os.path.join(VERIF, "replays", *(["alt_" + ALT_TAG] if ALT_REPO else []), "%s_%s.json" % (self.pid, re.sub(r"[^A-Za-z0-9_.-]+", "_", sig)[:80]))
             first = items[0]
             json.dump({"property": self.pid, "signature": sig, "occurrences": len(items), "first": first,
                        "others": [i["sc"] for i in items[1:20]]}, open(rp, "w"), indent=1)
@@ -340,6 +349,8 @@ class Verdict:
 # --------------------------------------------------------------------------- evidence
 
 def write_evidence(pid, tier, seed, coverage, wall, violations, assumptions, level="model_checking"):
+    if ALT_REPO:
+        return None                 # a run against a scratch copy is not evidence
     os.makedirs(os.path.join(VERIF, "evidence"), exist_ok=True)
     ev = {"property_id": pid, "tier": tier, "seed": int(seed), "level": level, "coverage": coverage,
           "assumptions": assumptions, "wall_s": round(wall, 2), "violations": int(violations)}
